@@ -26,15 +26,16 @@ demo = os.path.join(W, "tests", "seeded_demo.rs")
 if not os.path.exists(demo):
     print("no demo"); sys.exit(2)
 out = {"id": sid, "property": pid, "ran": []}
-rc_suite, o = sh(env + " cargo test --offline --workspace --lib --bins --doc 2>&1 | grep -E '^test result|FAILED|error' | head -5", cwd=W)
-suite_ok = "FAILED" not in o and "error" not in o and "test result: ok. 42 passed" in o
-out["ran"].append({"cmd": "cargo test --offline --workspace --lib --bins --doc (with the change)", "result": o.strip()[:300], "ok": suite_ok})
+rc_suite, o = sh(env + " cargo test --offline --workspace --lib --bins 2>&1 | grep -E '^test result|FAILED|^error' | head -5; " + env + " cargo test --offline --workspace --doc 2>&1 | grep -E '^test result|FAILED|^error' | head -3", cwd=W)
+suite_ok = "FAILED" not in o and "error" not in o and "test result: ok. 42 passed" in o and "test result: ok. 9 passed" in o
+out["ran"].append({"cmd": "cargo test --offline --workspace --lib --bins ; cargo test --offline --workspace --doc (with the change)", "result": o.strip()[:400], "ok": suite_ok})
 rc_d, o = sh(env + " cargo test --offline --test seeded_demo 2>&1 | grep -E '^test |test result' | head -8", cwd=W)
 demo_fails = "FAILED" in o or "failed" in o
 out["ran"].append({"cmd": "cargo test --offline --test seeded_demo (with the change)", "result": o.strip()[:400], "fails_as_required": demo_fails})
-sh("git stash push -- src include Cargo.toml", cwd=W)
+open("/tmp/seed/%s.eval.patch" % pid, "w").write(diff)
+sh("git checkout -- src include Cargo.toml", cwd=W)
 rc_b, o = sh(env + " cargo test --offline --test seeded_demo 2>&1 | grep -E '^test |test result' | head -8", cwd=W)
-sh("git stash pop", cwd=W)
+sh("git apply /tmp/seed/%s.eval.patch" % pid, cwd=W)
 demo_passes_clean = "test result: ok" in o and "FAILED" not in o
 out["ran"].append({"cmd": "cargo test --offline --test seeded_demo (change stashed)", "result": o.strip()[:400], "passes_as_required": demo_passes_clean})
 out["confirmed"] = bool(suite_ok and demo_fails and demo_passes_clean)
